@@ -126,7 +126,11 @@ func ptrList[T any](xs []*T) []bool {
 //	iatbatch := I ihdr <ctl> <ne> ientry*
 //	ihdr     := N | H <scc> <iatcor: IATIndicator == "IATCOR" && SEC == COR>
 //	ientry   := N | J <cat> <transaction code> <a10..a16 a98 a99> <a17 bits> <a18 bits>
-func encodeFile(f *ach.File) string {
+func encodeFile(f *ach.File) string { return encodeFileOpt(f, false) }
+
+// encodeFileOpt with skipOffsets leaves the entries named "OFFSET" out (whether balancing adds a debit or a
+// credit offset entry depends on amounts, which shapes do not carry)
+func encodeFileOpt(f *ach.File, skipOffsets bool) string {
 	var t []string
 	add := func(s ...string) { t = append(t, s...) }
 	add("F", fmt.Sprint(len(f.Batches)))
@@ -143,6 +147,15 @@ func encodeFile(f *ach.File) string {
 		}
 		add(bit(b.GetControl() != nil), bit(b.GetADVControl() != nil), bit(hasOffset(b)))
 		es := b.GetEntries()
+		if skipOffsets {
+			var kept []*ach.EntryDetail
+			for _, e := range es {
+				if e == nil || !strings.EqualFold(e.IndividualName, "OFFSET") {
+					kept = append(kept, e)
+				}
+			}
+			es = kept
+		}
 		add(fmt.Sprint(len(es)))
 		for _, e := range es {
 			if e == nil {
